@@ -45,7 +45,7 @@ pub enum What {
 #[derive(Clone, Debug)] pub struct Pkt { pub sock: Sk, pub src: u8, pub what: What }
 #[derive(Clone, Debug)]
 pub struct Case {
-    pub controlling: bool, pub state: u8, pub latching: bool, pub nominated: bool,
+    pub controlling: bool, pub state: u8, pub latching: bool, pub nominated: bool, pub webrtc: bool,
     pub locals: u8,              // bit0 udp0 host, bit1 udp1 host, bit2 tcp passive host, bit3 relay
     pub remotes: u8,             // bit i: peer i known (host, udp); bit3: tcp peer known (host, tcp); bit 4: peer0 entry is srflx with low priority
     pub selected: Option<(u8, u8)>,
@@ -55,8 +55,8 @@ pub struct Case {
 
 impl Case {
     pub fn text(&self) -> String {
-        let mut s = format!("c{},s{},l{},n{},L{},R{},S{},P{}", self.controlling as u8, self.state, self.latching as u8, self.nominated as u8,
-            self.locals, self.remotes, self.selected.map(|(a, b)| format!("{a}.{b}")).unwrap_or_else(|| "-".into()), self.pending);
+        let mut s = format!("c{},s{},l{},n{},L{},R{},S{},P{},w{}", self.controlling as u8, self.state, self.latching as u8, self.nominated as u8,
+            self.locals, self.remotes, self.selected.map(|(a, b)| format!("{a}.{b}")).unwrap_or_else(|| "-".into()), self.pending, self.webrtc as u8);
         for p in &self.pkts {
             let sk = match p.sock { Sk::Udp0 => "u0", Sk::Udp1 => "u1", Sk::Tcp => "tcp", Sk::Turn => "turn" };
             let w = match &p.what {
@@ -87,7 +87,7 @@ impl Case {
             pkts.push(Pkt { sock, src: src.parse().ok()?, what });
         }
         Some(Case { controlling: n(head[0])? == 1, state: n(head[1])?, latching: n(head[2])? == 1, nominated: n(head[3])? == 1, locals: n(head[4])?,
-            remotes: n(head[5])?, selected, pending: n(head[7])?, pkts })
+            remotes: n(head[5])?, selected, pending: n(head[7])?, webrtc: head.get(8).and_then(|h| n(h)).unwrap_or(1) == 1, pkts })
     }
 }
 
@@ -184,15 +184,16 @@ impl Obs {
 struct Built { transport: IceTransport, ufrag: String, pwd: String, init_tokens: String, pend: Vec<([u8; 12], tokio::sync::oneshot::Receiver<rustrtc::transports::ice::stun::StunDecoded>)>, cap: Arc<Capture> }
 
 fn build(env: &Env, c: &Case, rng_tx: &mut Rng) -> Built {
-    let cfg = rustrtc::RtcConfigurationBuilder::new().enable_latching(c.latching).build();
+    let cfg = rustrtc::RtcConfigurationBuilder::new().enable_latching(c.latching)
+        .transport_mode(if c.webrtc { rustrtc::TransportMode::WebRtc } else { rustrtc::TransportMode::Rtp }).build();
     let (transport, _runner) = IceTransport::new(cfg);
     transport.set_role(if c.controlling { IceRole::Controlling } else { IceRole::Controlled });
     let st = [IceTransportState::New, IceTransportState::Checking, IceTransportState::Connected][(c.state % 3) as usize];
     transport.verif_set_state(st);
     if c.nominated { transport.verif_set_nomination_complete(Some(true)); }
     let lp = transport.local_parameters();
-    let mut toks = format!("cfg,{},{},{},{},{},{}", if c.controlling { "controlling" } else { "controlled" }, state_name(st), c.latching as u8,
-        if c.nominated { "t" } else { "-" }, hex(lp.username_fragment.as_bytes()), hex(lp.password.as_bytes()));
+    let mut toks = format!("cfg,{},{},{},{},{},{},{}", if c.controlling { "controlling" } else { "controlled" }, state_name(st), c.latching as u8,
+        if c.nominated { "t" } else { "-" }, hex(lp.username_fragment.as_bytes()), hex(lp.password.as_bytes()), if c.webrtc { "webrtc" } else { "rtp" });
     let mut locals: Vec<IceCandidate> = vec![];
     for i in 0..2 { if c.locals & (1 << i) != 0 { let cand = IceCandidate::host(env.locals[i].local_addr().unwrap(), 1); transport.verif_add_local_udp(cand.clone(), env.locals[i].clone()); locals.push(cand); } }
     if c.locals & 4 != 0 { let cand = IceCandidate::host_tcp(env.tcp_local, 1, TcpType::Passive); transport.verif_add_local_candidate(cand.clone()); locals.push(cand); }
@@ -285,7 +286,8 @@ pub fn exec(env: &mut Env, run: &mut Run, c: &Case, verbose: bool) {
         if verbose { println!("pkt {:?} -> {}", p, after.text()); }
         // ---- the property's oracle, on the implementation only
         let role = if c.controlling { "controlling" } else { "controlled" };
-        if let (What::Req { user, mi, .. }, Some(false)) = (&p.what, authentic) {
+        if let (What::Req { .. }, Some(false), false) = (&p.what, authentic, c.webrtc) { run.count("unauthenticated_request_in_rtp_mode_not_judged"); }
+        if let (What::Req { user, mi, .. }, Some(false), true) = (&p.what, authentic, c.webrtc) {
             let v = variant(*user, *mi);
             let mut eff = vec![];
             if after.rems != before.rems { eff.push("candidate-added"); }
@@ -308,8 +310,12 @@ pub fn exec(env: &mut Env, run: &mut Run, c: &Case, verbose: bool) {
         // reply well-formedness (reference crate): Binding success, same transaction id, XOR-MAPPED = source, MI under the local password, FINGERPRINT
         if let (Some(rep), What::Req { .. }) = (&reply, &p.what) { reply_oracle(run, c, rep, &bytes, src, &b.pwd); }
         if matches!(p.what, What::Req { .. }) && reply.is_none() && r.is_ok() { run.count("request_without_observed_reply"); }
-        if let Some(a) = authentic { run.case("auth", &format!("{} {} {}", hex(b.ufrag.as_bytes()), hex(b.pwd.as_bytes()), hex(&bytes)),
-            &format!("request auth={} uc={}", a as u8, matches!(p.what, What::Req { uc: true, .. }) as u8), true); }
+        if let Some(a) = authentic {
+            // three-way: the real `stun_request_authenticated`, the generator's intent (= strict RFC reading), the model
+            let real = b.transport.verif_request_authenticated(&bytes);
+            if real != a { run.fail(&format!("auth-check:{}", if real { "accepts-forged-request" } else { "rejects-genuine-request" }), &c.text(), &hex(&bytes)); }
+            run.case("auth", &format!("{} {} {}", hex(b.ufrag.as_bytes()), hex(b.pwd.as_bytes()), hex(&bytes)),
+                &format!("request auth={} rfc={} uc={}", real as u8, a as u8, matches!(p.what, What::Req { uc: true, .. }) as u8), true); }
         outs.push(after);
     }
     let out = outs.iter().map(|o| o.text()).collect::<Vec<_>>().join(" ");
@@ -357,7 +363,55 @@ fn gen_case(rng: &mut Rng) -> Case {
     let selected = if nloc > 0 && nrem > 0 && rng.chance(1, 2) { Some((rng.below(nloc as u64) as u8, rng.below(nrem as u64) as u8)) } else { None };
     let n = rng.range(1, 4) as usize;
     let pkts = (0..n).map(|_| { let sock = *rng.pick(&[Sk::Udp0, Sk::Udp0, Sk::Udp0, Sk::Udp1, Sk::Tcp, Sk::Turn]); Pkt { sock, src: rng.below(4) as u8, what: gen_what(rng, pending) } }).collect();
-    Case { controlling: rng.chance(1, 2), state: rng.below(3) as u8, latching: rng.chance(1, 4), nominated: rng.chance(1, 4), locals, remotes, selected, pending, pkts }
+    Case { controlling: rng.chance(1, 2), state: rng.below(3) as u8, latching: rng.chance(1, 4), nominated: rng.chance(1, 4), webrtc: rng.chance(4, 5), locals, remotes, selected, pending, pkts }
+}
+
+/// `verify_message_integrity`, `username_from_stun_bytes`, `peer_ufrag_from_binding_request` and
+/// `stun_request_authenticated` on structurally valid, mutated and malformed datagrams vs the model.
+fn raw_auth_stream(env: &mut Env, run: &mut Run, rng: &mut Rng, thorough: bool) {
+    use super::c16::msg::{A, Spec, gen_ref_spec, rng_tx, utf8_of_len};
+    use rustrtc::verif_hooks::ice::inbound;
+    let (transport, _r) = IceTransport::new(rustrtc::RtcConfiguration::default());
+    let lp = transport.local_parameters();
+    let (uf, pw) = (lp.username_fragment.clone(), lp.password.clone());
+    let n = if thorough { 60_000 } else { 5_000 };
+    for i in 0..n {
+        let mut s: Spec = gen_ref_spec(rng);
+        s.attrs.retain(|a| !matches!(a, A::Unk(..)));
+        if rng.chance(3, 4) { s.cls = 0; }
+        if rng.chance(3, 4) { s.method = 0; }
+        let uname = match rng.below(8) { 0 => None, 1 => Some(format!("{uf}x:peer")), 2 => Some(uf.clone()), 3 => Some(format!(":{uf}")), 4 => Some(format!("peer:{uf}")),
+            5 => { let k = rng.below(20) as usize; Some(utf8_of_len(rng, k)) } _ => Some(format!("{uf}:{}", { let k = rng.below(12) as usize; utf8_of_len(rng, k) })) };
+        s.attrs.retain(|a| !matches!(a, A::Un(_)) || rng.chance(1, 6));
+        if let Some(u) = uname { let pos = rng.below(s.attrs.len() as u64 + 1) as usize; s.attrs.insert(pos, A::Un(u)); }
+        s.key = match rng.below(5) { 0 => None, 1 => Some(b"wrong".to_vec()), _ => Some(pw.as_bytes().to_vec()) };
+        s.tx = rng_tx(rng);
+        let mut bytes = s.encode_reference();
+        match rng.below(12) {
+            0 => { let i = rng.below(bytes.len() as u64) as usize; bytes[i] ^= 1 << rng.below(8); }
+            1 => { let k = rng.below(8) as usize + 1; let l = bytes.len(); bytes.truncate(l.saturating_sub(k)); }
+            2 => { let extra = rng.below(9) as usize; let e = rng.bytes(extra); bytes.extend_from_slice(&e); let nl = (bytes.len() - 20) as u16; bytes[2..4].copy_from_slice(&nl.to_be_bytes()); }
+            3 => { if bytes.len() > 24 { bytes[22..24].copy_from_slice(&(*rng.pick(&[0u16, 1, 19, 20, 21, 0xffff])).to_be_bytes()); } }
+            4 => { let k = rng.below(24) as usize; bytes = rng.bytes(k); }
+            _ => {}
+        }
+        let _ = i;
+        let key = if rng.chance(4, 5) { pw.as_bytes().to_vec() } else { b"wrong".to_vec() };
+        let t = transport.clone(); let by = bytes.clone(); let k2 = key.clone();
+        match crate::catch(std::panic::AssertUnwindSafe(move || (rustrtc::transports::ice::stun::verify_message_integrity(&by, &k2), inbound::username_from_stun_bytes(&by),
+            inbound::peer_ufrag_from_binding_request(&by), t.verif_request_authenticated(&by)))) {
+            Ok((vmi, un, pu, auth)) => {
+                run.case("vmi", &format!("{} {}", hex(&key), hex(&bytes)), &(vmi as u8).to_string(), vmi);
+                let o = |x: &Option<String>| x.as_ref().map(|s| format!("s{}", hex(s.as_bytes()))).unwrap_or_else(|| "n".into());
+                run.case("uname", &hex(&bytes), &format!("{} {}", o(&un), o(&pu)), un.is_some());
+                run.case("codeauth", &format!("{} {} {}", hex(uf.as_bytes()), hex(pw.as_bytes()), hex(&bytes)), &(auth as u8).to_string(), auth);
+                run.count(&format!("raw_auth_{}", auth as u8));
+            }
+            Err(p) => { run.fail("auth-check:panic", &format!("raw {}", hex(&bytes)), &p); }
+        }
+    }
+    let _ = env;
+    transport.stop();
 }
 
 pub fn run(args: &Args) {
@@ -376,7 +430,7 @@ pub fn run(args: &Args) {
     for controlling in [false, true] { for state in 0..3u8 { for sock in [Sk::Udp0, Sk::Tcp, Sk::Turn] { for known in [false, true] {
         for user in [User::None, User::Wrong, User::Ok] { for mi in [Mi::None, Mi::Corrupt, Mi::WrongKey, Mi::Ok] { for uc in [false, true] {
             let remotes = if !known { 0 } else if sock == Sk::Tcp { 8 } else { 1 };
-            let c = Case { controlling, state, latching: false, nominated: false, locals: 0b1101, remotes, selected: None, pending: 1,
+            let c = Case { controlling, state, latching: false, nominated: false, webrtc: true, locals: 0b1101, remotes, selected: None, pending: 1,
                 pkts: vec![Pkt { sock, src: 0, what: What::Req { user, mi, uc, method: 0 } }] };
             exec(&mut env, &mut run, &c, false);
         }}}
@@ -385,16 +439,20 @@ pub fn run(args: &Args) {
     // responses: solicited / unsolicited / replayed, success / error, all roles and states
     for controlling in [false, true] { for state in 0..3u8 { for error in [false, true] { for tx in [0u8, 1, 200] { for sock in [Sk::Udp0, Sk::Turn] {
         let r = Pkt { sock, src: 1, what: What::Resp { tx, error, method: 0 } };
-        let c = Case { controlling, state, latching: false, nominated: false, locals: 0b1001, remotes: 2, selected: None, pending: 2, pkts: vec![r.clone(), r.clone(), r] };
+        let c = Case { controlling, state, latching: false, nominated: false, webrtc: true, locals: 0b1001, remotes: 2, selected: None, pending: 2, pkts: vec![r.clone(), r.clone(), r] };
         exec(&mut env, &mut run, &c, false);
     }}}}}
     // latching and re-nomination corners
-    for controlling in [false, true] { for nominated in [false, true] { for uc in [false, true] { for user in [User::None, User::Ok] {
-        let c = Case { controlling, state: 2, latching: true, nominated, locals: 0b0011, remotes: 0b10011, selected: Some((0, 0)), pending: 0,
+    for webrtc in [true, false] { for controlling in [false, true] { for nominated in [false, true] { for uc in [false, true] { for user in [User::None, User::Ok] {
+        let c = Case { controlling, state: 2, latching: true, nominated, webrtc, locals: 0b0011, remotes: 0b10011, selected: Some((0, 0)), pending: 0,
             pkts: vec![Pkt { sock: Sk::Udp0, src: 1, what: What::Req { user, mi: if user == User::Ok { Mi::Ok } else { Mi::None }, uc, method: 0 } },
                        Pkt { sock: Sk::Udp1, src: 3, what: What::Req { user, mi: Mi::None, uc, method: 0 } }] };
         exec(&mut env, &mut run, &c, false);
-    }}}}
+    }}}}}
+    // the pre-fix witness in RTP mode (where unauthenticated probes are by design still honoured)
+    exec(&mut env, &mut run, &Case { controlling: false, state: 0, latching: false, nominated: false, webrtc: false, locals: 0b0001, remotes: 0, selected: None, pending: 0,
+        pkts: vec![Pkt { sock: Sk::Udp0, src: 0, what: What::Req { user: User::None, mi: Mi::None, uc: true, method: 0 } }] }, false);
+    raw_auth_stream(&mut env, &mut run, &mut rng, args.tier_thorough);
     // (2) random multi-packet cases
     let n = if args.tier_thorough { 40_000 } else { 2_500 };
     for _ in 0..n { let c = gen_case(&mut rng); exec(&mut env, &mut run, &c, false); }
